@@ -44,7 +44,9 @@ DEFS = [
 
 
 def programs(tier):
+  from vk import defspace
   out = [(progspace.pid(src), src) for src in DEFS]
+  out += [(progspace.pid(src), src) for _, src in defspace.programs(tier)]
   if tier == "quick":
     out += [(i, src) for i, src, _ in progspace.programs("smoke")]
   else:
@@ -81,6 +83,7 @@ def _norm(term):
   return term
 
 
+_IMPLICIT_KIND = {"__new__": "staticmethod", "__init_subclass__": "classmethod", "__class_getitem__": "classmethod"}
 _SKIP_BASES = {"NamedTuple", "Enum", "IntEnum", "Protocol", "TypedDict", "Generic", "ABC"}
 
 
@@ -106,7 +109,7 @@ def cross_read(text, tree):
       if a != b:
         bad.append("%s: constant %s: text says %s, parser read %s" % (where, name, pyast.unparse(ann), b))
 
-  def cmp_funcs(af, pf, where, pconsts=()):
+  def cmp_funcs(af, pf, where, pconsts=(), in_class=False):
     pn = {tname(f.name): f for f in pf}
     for name, defs in af.items():
       decos = {pyast.unparse(d).split(".")[-1] for d0 in defs for d in d0.decorator_list}
@@ -124,6 +127,13 @@ def cross_read(text, tree):
         bad.append("%s: function %s in the text was not read by the parser" % (where, name))
         continue
       f = pn[name]
+      if in_class:
+        want = ("staticmethod" if "staticmethod" in decos else "classmethod" if "classmethod" in decos else
+                _IMPLICIT_KIND.get(name, "method"))
+        got_kind = getattr(f.kind, "value", str(f.kind))
+        # an undecorated __class_getitem__ is an implicit classmethod for CPython; either reading is accepted
+        if got_kind != want and not (name == "__class_getitem__" and not decos):
+          bad.append("%s: method %s: text declares a %s, parser read a %s" % (where, name, want, got_kind))
       if len(f.signatures) != len(defs):
         bad.append("%s: function %s has %d defs in the text but %d signatures were read" % (
             where, name, len(defs), len(f.signatures)))
@@ -172,7 +182,7 @@ def cross_read(text, tree):
       if bases_txt and bases_txt != bases_read:
         bad.append("%s: class %s bases: text %s, parser read %s" % (where, name, bases_txt, bases_read))
       cmp_consts(ci.consts, c.constants, where + name + ".")
-      cmp_funcs(ci.funcs, c.methods, where + name + ".", c.constants)
+      cmp_funcs(ci.funcs, c.methods, where + name + ".", c.constants, in_class=True)
       cmp_classes(ci.classes, c.classes, where + name + ".")
 
   cmp_consts(st.consts, tree.constants, "")
@@ -208,8 +218,38 @@ def check_text(text, emitted):
   # generated stub: one round of canonicalisation must reach the fixpoint
   bad += ["after one canonicalisation: " + b for b in check_text(canon, True)]
   if not bad:
+    # what is read back from the re-printed text must be of the kinds that were read from the text
+    bad += ["re-printed text: " + b for b in kinds_differ(tree, canon)]
+  if not bad:
     # the original (possibly non-dialect) text is cross-read too
     bad += cross_read(text, tree)
+  return bad
+
+
+def _kinds(unit):
+  """{path of a function: (kind, number of signatures, flags)} for a pytd unit (names without module prefix)."""
+  out = {}
+
+  def walk(cls, prefix):
+    for m in cls.methods:
+      out[prefix + m.name.split(".")[-1]] = (getattr(m.kind, "value", str(m.kind)), len(m.signatures))
+    for c in cls.classes:
+      walk(c, prefix + c.name.split(".")[-1] + ".")
+  for f in unit.functions:
+    out[f.name.split(".")[-1]] = (getattr(f.kind, "value", str(f.kind)), len(f.signatures))
+  for c in unit.classes:
+    walk(c, c.name.split(".")[-1] + ".")
+  return out
+
+
+def kinds_differ(emitted_ast, text):
+  """The declarations read back from the emitted text must be of the kinds that were printed."""
+  from pytype.pyi import parser
+  a, b = _kinds(emitted_ast), _kinds(parser.parse_string(text, options=_po()))
+  bad = []
+  for k in sorted(set(a) | set(b)):
+    if a.get(k) != b.get(k):
+      bad.append("emitted %s as %s, re-read as %s" % (k, a.get(k), b.get(k)))
   return bad
 
 
@@ -229,6 +269,8 @@ def work(item):
     except Exception as e:  # pylint: disable=broad-except
       return [], "analysis-exception", None
     bad = check_text(res.pyi, True)
+    if not bad:
+      bad = kinds_differ(res.ast, res.pyi)
     return bad[:3], "prog-" + ("union" if "Union" in res.pyi else "plain"), res.pyi if bad else None
   bad = check_text(text, False)
   body = text[len(stubspace.HEADER) + len(stubspace.CLASS_DEFS):] if text.startswith(stubspace.HEADER) else text
@@ -263,7 +305,7 @@ def replay(case):
   boot.load()
   if case["kind"] == "prog":
     res = pt.analyze(case["text"])
-    bad = check_text(res.pyi, True)
+    bad = check_text(res.pyi, True) or kinds_differ(res.ast, res.pyi)
   else:
     bad = check_text(case["text"], False)
   key = progspace.pid(case["text"]) if case["kind"] == "prog" else stubspace.sid(case["text"])
